@@ -32,6 +32,13 @@ inductive Op where
 def Op.str : Op → String
   | .create => "create" | .delete => "delete" | .replace => "replace" | .none => "none"
 
+/-- `lyd_diff_op2str` as bytes (literal lists: they reduce in the kernel, `String.toUTF8` does not) -/
+def Op.bytes : Op → Bytes
+  | .create => [99, 114, 101, 97, 116, 101]
+  | .delete => [100, 101, 108, 101, 116, 101]
+  | .replace => [114, 101, 112, 108, 97, 99, 101]
+  | .none => [110, 111, 110, 101]
+
 /-- `lyd_diff_str2op` reads the first character only -/
 def Op.ofBytes (b : Bytes) : Option Op :=
   match b with
@@ -184,7 +191,7 @@ def idxOfTag (l : List (Bool × Nat)) (t : Bool × Nat) : Nat :=
 def tagNode (first second : List DNode) (t : Bool × Nat) : Option DNode :=
   if t.1 then second[t.2]? else first[t.2]?
 
-def boolBytes (b : Bool) : Bytes := if b then bs "true" else bs "false"
+def boolBytes (b : Bool) : Bytes := if b then [116, 114, 117, 101] else [102, 97, 108, 115, 101]
 
 /-- `lyd_diff_userord_attrs`.  `fi`/`si`: index of the node of the first / second tree (`none` = NULL).
 Returns `none` for `LY_ENOT` (no change) — the position counter has advanced all the same. -/
@@ -269,25 +276,26 @@ def nestedMeta (S : Schema) (prev : Option DNode) (posInGroup : Nat) (n : DNode)
     if S.isKind n.sid .list then addMeta n "key" ((p.map (keyPredicate S)).getD [])
     else addMeta n "value" ((p.map (·.val)).getD [])
 
+/-- one sibling list of a created copy: every node gets its nested metadata, `recur` does the children -/
+def nestedGo (S : Schema) (recur : List DNode → List DNode) (prev : Option DNode) (cnt : Nat) : List DNode → List DNode
+  | [] => []
+  | k :: rest =>
+    let cnt' := match prev with
+      | some p => if p.sid == k.sid then cnt + 1 else 0
+      | Option.none => 0
+    let k1 := nestedMeta S prev cnt' k
+    let k2 := match k1 with
+      | .inner s f m kk => DNode.inner s f m (recur kk)
+      | t => t
+    k2 :: nestedGo S recur (some k) cnt' rest
+
 /-- all descendants of a created copy get their nested metadata (`LYD_TREE_DFS` over the copy, the root excepted) -/
 def nestedAll (S : Schema) : (fuel : Nat) → List DNode → List DNode
   | 0, ks => ks
-  | fuel + 1, ks =>
-    let rec go (prev : Option DNode) (cnt : Nat) : List DNode → List DNode
-      | [] => []
-      | k :: rest =>
-        let cnt' := match prev with
-          | some p => if p.sid == k.sid then cnt + 1 else 0
-          | Option.none => 0
-        let k1 := nestedMeta S prev cnt' k
-        let k2 := match k1 with
-          | .inner s f m kk => DNode.inner s f m (nestedAll S fuel kk)
-          | t => t
-        k2 :: go (some k) cnt' rest
-    go Option.none 0 ks
+  | fuel + 1, ks => nestedGo S (nestedAll S fuel) Option.none 0 ks
 
 def withAttrs (S : Schema) (n : DNode) (a : Attrs) : DNode :=
-  let n := addMeta n "operation" (bs a.op.str)
+  let n := addMeta n "operation" a.op.bytes
   -- all nested user-ordered (leaf-)lists need special metadata for a create
   let n := if a.op == .create then n.setKids (nestedAll S (n.height + 1) n.kids) else n
   let n := addMetaOpt n "orig-default" a.origDefault
@@ -320,7 +328,7 @@ def addAt (S : Schema) (out : List DNode) (node : DNode) (a : Attrs) : List DNod
     | some e =>
       let e1 := e.setMetas (eraseMeta "operation" e.metas)
       let ks := e1.kids.map fun k =>
-        if S.isKey k.sid || (getMeta k "operation").isSome then k else addMeta k "operation" (bs "none")
+        if S.isKey k.sid || (getMeta k "operation").isSome then k else addMeta k "operation" Op.none.bytes
       let e2 := withAttrs S (e1.setKids ks) a
       let out' := out.set i e2
       if S.isUserOrd node.sid then
@@ -368,7 +376,7 @@ def wrapParent (S : Schema) (top : Bool) (st : St) (a b : DNode) (sub : St) : St
   if sub.out.isEmpty then st else
   let src := if sub.side then b else a
   let hdr := dupShallow S src
-  let metas : List Meta := if noneOnParent top st.emitted sub.fd then [("operation", bs "none")] else []
+  let metas : List Meta := if noneOnParent top st.emitted sub.fd then [("operation", Op.none.bytes)] else []
   let p := DNode.inner hdr.sid { hdr.flags with dflt := hdr.flags.dflt && sub.out.all (·.flags.dflt) } metas (hdr.kids ++ sub.out)
   { st.emit (insertBySchema p st.out) sub.side (sub.fd + 1) with ptr := 0 }
 
